@@ -242,11 +242,16 @@ class Ephem(Speaker):
                 else:
                     real_start = self.start
 
+            # When the requested stop is before the requested start, the
+            # ephemeris is browsed backward
+            backward = False
+
             if stop is None:
                 stop = self.stop
             else:
                 if isinstance(stop, timedelta):
                     stop = start + stop
+                backward = stop < start
                 if stop > self.stop:
                     if strict:
                         raise ValueError(
@@ -261,12 +266,12 @@ class Ephem(Speaker):
             if step is None:
 
                 # The step stays the same as the original ephemeris
-                for orb in self:
+                for orb in reversed(self._orbits) if backward else self:
 
-                    if orb.date < start:
+                    if orb.date > start if backward else orb.date < start:
                         continue
 
-                    if orb.date > stop:
+                    if orb.date < stop if backward else orb.date > stop:
                         break
 
                     # Listeners
@@ -278,8 +283,11 @@ class Ephem(Speaker):
                     yield orb.copy()
             else:
                 # create as ephemeris with a different step than the original
+                if backward and step.total_seconds() > 0:
+                    step = -step
+
                 date = start
-                while date <= stop:
+                while date >= stop if backward else date <= stop:
 
                     orb = self.propagate(date)
 
